@@ -22,6 +22,7 @@ import (
 	"strconv"
 	"strings"
 	"sync"
+	"sync/atomic"
 	"time"
 )
 
@@ -314,6 +315,17 @@ func knownFor(id string, all []known) []map[string]any {
 	return r
 }
 
+var isolatedSlots int32
+
+func hasSummary(r workerResult) bool {
+	for _, m := range r.records {
+		if m["type"] == "summary" {
+			return true
+		}
+	}
+	return false
+}
+
 func runCheck(id, tier string) int {
 	start := time.Now()
 	seed := uint64(envInt("VERIF_SEED", 1))
@@ -345,6 +357,35 @@ func runCheck(id, tier string) int {
 				"budget_s": budget, "max_runs": envInt("VERIF_MAX_RUNS", 0), "hash_out": filepath.Join(b.scratch, fmt.Sprintf("w%d.hashes", w)),
 				"replay_dir": replayDir, "corpus": corpusFor(id), "known": knownFor(id, kn), "samples": samples}
 			results[w] = runWorker(b, job, fmt.Sprintf("w%d", w), time.Duration(budget)*time.Second+5*time.Minute)
+			if !hasSummary(results[w]) && strings.Contains(results[w].output, "synctest channel from outside bubble") {
+				// The code under test keeps a channel (or timer) in package-level state: created in the bubble of one
+				// run, it is fatal to touch in the bubble of the next. Nothing is wrong with the code or the plans -
+				// runs just cannot share a process. Fall back to one plan per process for this worker slot (slower by
+				// two orders of magnitude, isolated by construction): no re-execution, no in-process shrinking.
+				atomic.AddInt32(&isolatedSlots, 1)
+				var recs []record
+				corpus := corpusFor(id)
+				deadline := start.Add(time.Duration(budget) * time.Second)
+				if rem := time.Until(deadline); rem < 8*time.Second {
+					deadline = time.Now().Add(8 * time.Second) // the first attempt used the budget up: a short second wind
+				}
+				for k := 0; time.Now().Before(deadline); k++ {
+					j2 := map[string]any{"mode": "explore", "property": id, "tier": tier, "base_seed": seed, "worker": w, "workers": workers,
+						"budget_s": 3600, "max_runs": 1, "first_index": k * workers, "isolated": true,
+						"hash_out": filepath.Join(b.scratch, fmt.Sprintf("w%d-%d.hashes", w, k)),
+						"replay_dir": replayDir, "known": knownFor(id, kn), "samples": 0}
+					if w == 0 && k < len(corpus) {
+						j2["corpus"], j2["max_runs"] = []string{corpus[k]}, -1 // the corpus plan only
+					}
+					r := runWorker(b, j2, fmt.Sprintf("w%d-%d", w, k), 10*time.Minute)
+					recs = append(recs, r.records...)
+					if !hasSummary(r) {
+						results[w] = workerResult{records: recs, err: r.err, output: r.output, killed: r.killed}
+						return
+					}
+				}
+				results[w] = workerResult{records: recs}
+			}
 		}(w)
 	}
 	wg.Wait()
@@ -410,8 +451,9 @@ func runCheck(id, tier string) int {
 	}
 	// union of abstract hashes
 	distinct := map[uint64]struct{}{}
-	for w := 0; w < workers; w++ {
-		hb, err := os.ReadFile(filepath.Join(b.scratch, fmt.Sprintf("w%d.hashes", w)))
+	hashFiles, _ := filepath.Glob(filepath.Join(b.scratch, "w*.hashes"))
+	for _, hf := range hashFiles {
+		hb, err := os.ReadFile(hf)
 		if err != nil {
 			continue
 		}
@@ -474,6 +516,7 @@ func runCheck(id, tier string) int {
 		"extra":               extra,
 		"unshimmed_api_present": b.unshimmed,
 		"dependency_files_repointed_notation_core_go": b.depShimmed,
+		"worker_slots_that_fell_back_to_one_plan_per_process": atomic.LoadInt32(&isolatedSlots),
 		"workers":             workers,
 		"build_s":             b.buildS,
 		"exhaustive":          false,
